@@ -3,6 +3,7 @@ import os, sys
 sys.path.insert(0, os.path.join(os.path.dirname(os.path.abspath(__file__)), '..'))
 from go2v_hook import go2v_hook
 CONF = {
+    'coq_sample': 15,   # cases re-evaluated inside Coq by vm_compute against the extracted runner's output
     'pre': [go2v_hook],
     'interesting': ['out-of-order-queue', 'overlap-case-2', 'overlap-case-3', 'overlap-case-4', 'overlap-case-6',
                     'duplicate-drop', 'wrap-crossed', 'limit-flush', 'age-flush', 'late-syn', 'keep-from', 'multi-page'],
